@@ -13,7 +13,7 @@ LEVEL_TEXT = ('Lean 4 theorems about tables regenerated from the source on every
               'documented RST table; propagation typing; for every program of any length (induction) the code machine and the '
               'documented machine give the same trace of types/refusals; every documented '
               'class except Rotate/Flip has its documented ptype and acts as documented (partial: Rotate/Flip are an open known '
-              'finding with a Lean witness).')
+              'finding with a Lean witness). Structure of the generated table, each evaluated on Gen.codeMul/codePropagate: a product is refused exactly when a typed wavefront meets an untyped `none` plane or a plane of the other type (mul_refused_iff — only the pair (wavefront type, plane ptype) matters, whatever ptype the caller constructs the plane with); a typed wavefront keeps its type and an untyped one takes a pupil/image plane\'s (mul_result_type); tilt/transform planes are neutral and never refused (tilt_transform_neutral) and can be dropped from any program without changing the final type (neutral_planes_can_be_dropped); an accepted plane type can be applied again without change (mul_idempotent); propagation is an involution on pupil/image (propagate_involutive); the documented system Pupil, tilts…, propagate, tilts…, Image is accepted for any number of tilt-type classes (standard_system_accepted); refused_steps_keep_type is a fact about how the MODEL threads the type through a program, not evidence about the code.')
 LEVEL_NOTE = ('partial: `all_documented_classes_apply_partial` and `class_run_eq_doc_partial` exclude lentil.Rotate/lentil.Flip '
               '(KF-C08-rotate-flip). That a refused operation leaves the *arrays* of both operands untouched is observed by '
               'snapshots in the correspondence only (the model carries types, not arrays). Trusted: the table generators in '
